@@ -599,8 +599,28 @@ fn judge(case: &ImportCase, r: &JobResult, breaches: &[String]) -> Vec<(String, 
         return v;
     }
     if let Some(twin) = &case.twin {
+        // the tree may change between the two searches (a file appears or vanishes right after
+        // the first load was read): each search is judged against the tree of its own moment
+        let mut files2 = files.clone();
+        for (i, f) in case.job.faults.iter().enumerate() {
+            if !r.fired.get(i).copied().unwrap_or(false) {
+                continue;
+            }
+            match f {
+                Fault::Vanish { target: Some(t), .. } => {
+                    files2.remove(&normalize(&case.job.cwd, t));
+                }
+                Fault::Appear { path, .. } => {
+                    files2.insert(normalize(&case.job.cwd, path));
+                }
+                _ => {}
+            }
+        }
+        let by_marker: BTreeMap<String, String> = files.iter().chain(files2.iter()).map(|p| (marker_id(p, &case.root), p.clone())).collect();
         let w1 = model.resolve(&case.job.cwd, &case.importer, &case.url, &case.job.load_paths, case.for_import());
-        let w2 = model.resolve(&case.job.cwd, twin, &case.url, &case.job.load_paths, case.for_import());
+        let mut model2 = Model { files: &files2, candidates: BTreeSet::new() };
+        let w2 = model2.resolve(&case.job.cwd, twin, &case.url, &case.job.load_paths, case.for_import());
+        model.candidates.extend(model2.candidates.iter().cloned());
         for w in [&w1, &w2].into_iter().flatten() {
             allowed_reads.insert(w.clone());
         }
@@ -837,6 +857,44 @@ impl Engine for Imports {
                 case.decoys = cands;
             }
             let mut variants = vec![case.clone()];
+            // twin layouts: the tree changes between the first and the second search
+            if let (Some(twin), true) = (case.twin.clone(), rng.chance(0.5)) {
+                let (r0, _) = run_case(&case);
+                let entry_norm = match &case.job.entry {
+                    Entry::Path(p) => normalize(&case.job.cwd, p),
+                    _ => String::new(),
+                };
+                let _ = entry_norm;
+                let twin_norm = normalize(&case.job.cwd, &twin);
+                // the moment of the change: when the second importer is being read, i.e. after
+                // everything the first importer loaded and before the second search begins
+                if let Some(e) = r0.fs.iter().find(|e| e.op == FsOp::Read && e.norm == twin_norm && e.result.starts_with("ok:")) {
+                    let files: BTreeSet<String> = case.job.files.iter().map(|f| normalize(&case.job.cwd, &f.0)).collect();
+                    let mut m1 = Model { files: &files, candidates: BTreeSet::new() };
+                    let w1 = m1.resolve(&case.job.cwd, &case.importer, &case.url, &case.job.load_paths, case.for_import());
+                    let mut m2 = Model { files: &files, candidates: BTreeSet::new() };
+                    m2.resolve(&case.job.cwd, &twin, &case.url, &case.job.load_paths, case.for_import());
+                    let mut c = case.clone();
+                    if let (Some(w1), true) = (w1, rng.chance(0.5)) {
+                        // the first winner is gone when the second search runs
+                        c.job.faults = vec![Fault::Vanish { at: e.k, target: Some(w1) }];
+                        variants.push(c);
+                    } else {
+                        // a candidate of the second search appears, in a directory that holds no other
+                        // candidate (two same-priority candidates side by side are outside the property)
+                        let occupied: BTreeSet<String> = m2.candidates.iter().filter(|p| files.contains(*p)).map(|p| dirname(p)).collect();
+                        let mut fresh: Vec<String> = m2.candidates.iter().filter(|p| !files.contains(*p) && (p.ends_with(".scss") || p.ends_with(".sass")) && !occupied.contains(&dirname(p)) && p.starts_with(&format!("{}/", root))).cloned().collect();
+                        if !case.for_import() {
+                            fresh.retain(|p| !p.contains(".import."));
+                        }
+                        if !fresh.is_empty() {
+                            let p = rng.pick(&fresh).clone();
+                            c.job.faults = vec![Fault::Appear { at: e.k, path: p.clone(), bytes: marker_text(&p, &root) }];
+                            variants.push(c);
+                        }
+                    }
+                }
+            }
             // faults on the Fs calls of the search
             if case.directive != "plain" && rng.chance(0.4) {
                 let (r0, _) = run_case(&case);
